@@ -254,12 +254,16 @@ pub struct Op {
     pub t: u64,
     pub p: u64,
     pub dataseed: u64,
-    /// NewYuv: 0 any valid code, 1 legal (limited) range, 2 one out-of-range visible sample, 3 extremes
-    /// NewFloat: 0 unit cube, 1 [-0.5,1.5], 2 special values, 3 HSL ranges, 4 arbitrary bit patterns
+    /// NewYuv: 0 any valid code, 1 legal (limited) range, 2 one out-of-range visible sample, 3 extremes,
+    /// 5 several out-of-range visible samples (always including the one mode 2 would have),
+    /// 6 two to four EQUAL out-of-range samples, 7 every sample the same out-of-range value
+    /// NewFloat: 0 unit cube, 1 [-0.5,1.5], 2 special values, 3 HSL ranges, 4 arbitrary bit patterns,
+    /// 6 runs of repeated pixels from a small palette, zeros changing sign inside a run
     pub datamode: u64,
     /// NewYuv: 0 = leave v_frame's default padding (128), else seed for padding contents
     pub padseed: u64,
-    /// Conv by value: 1 = consume the pooled object, 0 = convert a clone
+    /// Conv by value: 1 = consume the pooled object, 0 = convert a clone; CloneTo: 1 = clone_from;
+    /// NewYuv: 1 = planes built with Plane::from_slice (tight rows), paddings ignored
     pub consume: u64,
 }
 
@@ -715,7 +719,7 @@ impl Gen<'_> {
         // hundreds of thousands are out of reach of everything below
         let video_one_in = if self.prof == Profile::Metadata { 400 } else { 2500 };
         let (mut w, mut h) = if self.r.below(video_one_in) == 0 {
-            let (vw, vh) = self.r.pick(&[(720u64, 480u64), (720, 576), (704, 488), (640, 480), (768, 576), (1024, 768), (960, 720), (1280, 720), (256, 258), (320, 240), (352, 288)]);
+            let (vw, vh) = self.r.pick(&[(720u64, 480u64), (720, 576), (704, 488), (640, 480), (768, 576), (1024, 768), (960, 720), (1280, 720), (256, 258), (320, 240), (352, 288), (1280, 576), (1280, 480), (1281, 488), (1279, 576), (1280, 577)]);
             // exact sizes (the thresholds of the heuristic) half of the time, a few rows/columns
             // more otherwise (band and chunk sizes rarely divide those)
             if self.r.pct(50) || self.prof == Profile::Metadata {
@@ -724,10 +728,12 @@ impl Gen<'_> {
                 (vw + self.r.below(8), vh + self.r.below(8))
             }
         } else if self.r.pct(thresh_pct) {
+            // thin in the other direction mostly; now and then a few dozen rows/columns
+            let other = if self.r.pct(85) { self.r.range(1, 4) } else { self.r.range(5, 64) };
             if self.r.pct(50) {
-                (self.r.pick(&[1279u64, 1280, 1281, 1276, 1284]), self.r.range(1, 4))
+                (self.r.pick(&[1279u64, 1280, 1281, 1276, 1284]), other)
             } else {
-                (self.r.range(1, 4), self.r.pick(&[479u64, 480, 481, 484, 487, 488, 489, 492, 575, 576, 577, 572, 580]))
+                (other, self.r.pick(&[479u64, 480, 481, 484, 487, 488, 489, 492, 575, 576, 577, 572, 580]))
             }
         } else if self.r.pct(6) {
             (self.r.range(1, 64), self.r.range(1, 64))
@@ -821,6 +827,11 @@ impl Gen<'_> {
             // invisible alignment slots get arbitrary contents too
             op.padseed = self.r.next() | 1;
         }
+        // a quarter of the frames are built with `Plane::from_slice`: rows packed back to back
+        // (stride == width, no alignment slack, buffer exactly width*height samples)
+        if self.r.pct(25) {
+            op.consume = 1;
+        }
         op.dataseed = self.r.next();
         op.datamode = match self.r.below(20) {
             0..=9 => 0,
@@ -828,7 +839,14 @@ impl Gen<'_> {
             15..=16 => 3,
             _ => {
                 if ty == 1 && op.cfg.bd < 16 && (ill || self.prof == Profile::Constructors || self.r.pct(30)) {
-                    2
+                    // one out-of-range visible sample; sometimes several, several EQUAL ones, or a
+                    // whole frame of one out-of-range value (a frame labelled with too small a depth)
+                    match self.r.below(10) {
+                        0..=5 => 2,
+                        6..=7 => 5,
+                        8 => 6,
+                        _ => 7,
+                    }
                 } else {
                     0
                 }
@@ -872,7 +890,9 @@ impl Gen<'_> {
         }
         op.dataseed = self.r.next();
         let special = if self.prof == Profile::Safety { 30 } else { 8 };
-        op.datamode = if self.prof == Profile::Metadata && class != CL_HSL && self.r.pct(80) {
+        op.datamode = if self.r.pct(6) {
+            6 // runs of repeated pixels with sign flips of zeros
+        } else if self.prof == Profile::Metadata && class != CL_HSL && self.r.pct(80) {
             0
         } else if class == CL_HSL && self.r.pct(70) {
             3
@@ -1059,6 +1079,35 @@ fn generate_battery(seed: u64, r: &mut Rng) -> RunTrace {
             enc.slot = ty + 6;
             enc.cfg = CfgI { ssx, ssy, ..threads[ty as usize][threads[ty as usize].len() - 2].cfg };
             threads[ty as usize].push(enc);
+        }
+        // two frames with packed rows (`Plane::from_slice`: no alignment slack behind a row or
+        // behind the buffer) and rows wide enough for chunked fast paths
+        for _ in 0..2 {
+            let (ssx, ssy) = r.pick(&[(0u64, 0u64), (1, 1), (1, 0), (2, 0), (0, 1)]);
+            let mut op = Op::blank(Kind::NewYuv);
+            op.which = ty;
+            op.slot = ty;
+            op.consume = 1;
+            let bd = if ty == 0 { 8 } else { r.pick(&[10u64, 12, 16]) };
+            op.cfg = CfgI { bd, ssx, ssy, full: r.below(2), mc: 1 + r.below(N_STD_MATS), tc: 1 + r.below(N_SUP_TRCS), cp: 1 + r.below(10) };
+            let unit = 1u64 << ssx;
+            let lw = (r.range(33, 72) + unit - 1) / unit * unit;
+            let lh = (1u64 << ssy) * r.range(1, 2);
+            op.geo[0] = lw;
+            op.geo[1] = lh;
+            for pl in [2usize, 6] {
+                op.geo[pl] = lw >> ssx;
+                op.geo[pl + 1] = lh >> ssy;
+                op.geo[pl + 2] = ssx;
+                op.geo[pl + 3] = ssy;
+            }
+            op.dataseed = r.next();
+            threads[ty as usize].push(op);
+            let mut dec = Op::blank(Kind::Conv);
+            dec.which = r.below(3) * 2 + ty;
+            dec.src = ty;
+            dec.slot = CONVS[dec.which as usize].dst + 6 * ty;
+            threads[ty as usize].push(dec);
         }
     }
     RunTrace { seed, knobs: Knobs { slots, preempt: 0, heap: 0, iso: 0, repeat: 0, stress: 0, guard: 0, scn: 3 }, pre: Vec::new(), threads, sched: Vec::new() }
